@@ -21,8 +21,8 @@ BuildOk(e) ==
             /\ (want.x # None => r.m.x # None /\ r.m.x[1].verb = want.x[1].verb /\ r.m.x[1].noar = want.x[1].noar)   \* only what the statement names
     /\ r.m.h.plen = Len(r.bytes) - HdrsLen(r.bytes[1])                   \* recorded payload length = serialised payload
     /\ r.blen = Len(r.bytes)                                             \* byte length = serialisation without storage header
-    /\ e.sh0 = None =>                                                   \* (adding a storage header to a message that has one already: nothing is stated)
-        /\ r.m2 = AddStorageHeader(r.m, e.ts.secs, e.ts.us)
+    /\ TRUE =>                                                           \* (also for a message constructed with a storage header: the one it has afterwards carries
+        /\ r.m2 = AddStorageHeader(r.m, e.ts.secs, e.ts.us)               \*  the given time and the header ECU id - seeded change C15_E)
         /\ Len(r.bytes2) = 16 + Len(r.bytes) /\ SubSeq(r.bytes2, 17, Len(r.bytes2)) = r.bytes
         /\ IF WellFormed(want0)                                          \* 16 bytes carrying the given time and the ECU id: they parse back
            THEN r.parse.v = "msg" /\ r.parse.m = r.m2 /\ r.parse.consumed = Len(r.bytes2)    \* ... to an equal message (the byte layout itself is C02's)
